@@ -374,6 +374,21 @@ Section Write.
     - rewrite Hf. destruct (N.eqb_spec (len L) 0); [lia|reflexivity].
   Qed.
 
+  (* at any point: what the peer has of this message is a prefix, with the descriptors iff it is not empty *)
+  Lemma Inv_partial x w : INV x w ->
+    exists p, wire w = wire w0 ++ p /\ is_prefix p (hb ++ body)
+              /\ fds_delivered w = fds_delivered w0 ++ match p with [] => [] | _ => fds end
+              /\ len p = bytes_sent (cx_state x).
+  Proof.
+    intros (_ & _ & _ & _ & G & Hw & Hf). fold L in G, Hw.
+    exists (firstnN (bytes_sent (cx_state x)) L). split; [exact Hw|]. split; [apply firstnN_prefix|]. split.
+    - rewrite Hf. f_equal. destruct (N.eqb_spec (bytes_sent (cx_state x)) 0) as [Z|Z].
+      + rewrite Z. reflexivity.
+      + destruct (firstnN (bytes_sent (cx_state x)) L) eqn:Q; [|reflexivity].
+        apply firstnN_nil_iff in Q; [contradiction|exact G].
+    - rewrite len_firstnN. lia.
+  Qed.
+
   (* write_all on a blocking socket (every sendmsg takes at least one byte) returns Ok after at most
      as many iterations as there are bytes left *)
   Theorem write_all_terminates ds : forall x w, INV x w ->
@@ -556,7 +571,11 @@ Section FromSendMessage.
               /\ fds_delivered w' = fds_delivered w0 ++ msg_raw_fds m
               /\ wire_serial (header_buf c') = Some s
               /\ s = match dh_serial (msg_dyn m) with Some p => p | None => serial_counter c end
-    | Err | OutOfFuel => exists p, wire w' = wire w0 ++ p   (* whatever was written stays a continuation *)
+    | Err | OutOfFuel =>
+        (* whatever was written is a prefix of this message's header ++ body after what was there, with the
+           descriptors iff at least one byte went out (Err also stands for a refused message: p = []) *)
+        exists p, wire w' = wire w0 ++ p /\ is_prefix p (header_buf c' ++ msg_body m)
+                  /\ fds_delivered w' = fds_delivered w0 ++ match p with [] => [] | _ => msg_raw_fds m end
     | Panic => dh_serial (msg_dyn m) = None /\ serial_counter c + 1 = 2^32    (* "run out of serials" *)
     | UB => False
     end.
@@ -571,10 +590,10 @@ Section FromSendMessage.
       + destruct Hr as [-> Q]. rewrite Hhb.
         destruct (Inv_complete _ _ _ _ _ _ _ I') as [A B]; [rewrite len_app; lia|exact Q|].
         repeat split; auto.
-      + destruct I' as (_ & _ & _ & _ & _ & A & _). eauto.
-      + destruct I' as (_ & _ & _ & _ & _ & A & _). eauto.
-    - intros H. injection H as Ec Ew Er. subst c' w' r. exists []. now rewrite app_nil_r.
-    - intros H. injection H as Ec Ew Er. subst c' w' r. exists []. now rewrite app_nil_r.
+      + rewrite Hhb. destruct (Inv_partial _ _ _ _ _ _ _ I') as (p & A & B & C & _). exists p. auto.
+      + rewrite Hhb. destruct (Inv_partial _ _ _ _ _ _ _ I') as (p & A & B & C & _). exists p. auto.
+    - intros H. injection H as Ec Ew Er. subst c' w' r. exists []. rewrite !app_nil_r. repeat split. eexists; reflexivity.
+    - intros H. injection H as Ec Ew Er. subst c' w' r. exists []. rewrite !app_nil_r. repeat split. eexists; reflexivity.
     - intros H. injection H as Ec Ew Er. subst c' w' r. revert E. unfold send_message.
       destruct (dh_serial (msg_dyn m)) as [p|]; cbn [bind].
       + pose proof (marshal_total hdr_fields m p) as (T1 & T2 & T3). cbn [header_buf serial_counter].
